@@ -26,6 +26,7 @@ import os
 import random
 import re
 import typing as T
+import zlib
 from pathlib import Path
 
 from . import common
@@ -72,6 +73,12 @@ def impl():
         mlog._logger.log_disable_stdout = True
         os.environ.pop('MESON_RUNNING_IN_PROJECT_TESTS', None)
         _MODS = (mformat, mparser, mlog)
+        global FSUB, FSUB_SOURCE
+        try:
+            pat, FSUB_SOURCE = extract_fsub()
+            FSUB = re.compile(pat)
+        except Exception as e:   # reported as a failed obligation by gen_tables
+            FSUB_SOURCE = f'default (extraction failed: {type(e).__name__})' 
     return _MODS
 
 
@@ -197,7 +204,24 @@ def ser(n) -> str:
 # --------------------------------------------------------------------------------------------- Python oracle
 # second, independent implementation of erase / canon / comments (on mparser objects and lexer tokens)
 
-FSUB = re.compile(r'@([_a-zA-Z][_0-9a-zA-Z]*)@')
+FSUB_DEFAULT = r'@([_a-zA-Z][_0-9a-zA-Z]*)@'
+FSUB = re.compile(FSUB_DEFAULT)
+FSUB_SOURCE = 'default (not yet extracted)'
+
+
+def extract_fsub() -> T.Tuple[str, str]:
+    """the placeholder regex of the interpreter, read from the live `InterpreterBase.evaluate_fstring`
+    (first argument of its `re.sub` call); -> (pattern, where it came from)"""
+    import ast as pyast
+    import inspect
+    import textwrap
+    from mesonbuild.interpreterbase.interpreterbase import InterpreterBase
+    src = textwrap.dedent(inspect.getsource(InterpreterBase.evaluate_fstring))
+    for n in pyast.walk(pyast.parse(src)):
+        if isinstance(n, pyast.Call) and isinstance(n.func, pyast.Attribute) and n.func.attr in ('sub', 'search', 'finditer', 'compile') \
+                and n.args and isinstance(n.args[0], pyast.Constant) and isinstance(n.args[0].value, str):
+            return n.args[0].value, 'InterpreterBase.evaluate_fstring'
+    raise ValueError('no regex literal found in InterpreterBase.evaluate_fstring')
 
 
 def py_skel(n) -> T.Any:
@@ -380,6 +404,15 @@ COMMENT_BODIES = ['', ' c', ' comment', '# double', ' with \'quote\'', ' tab\the
                   ' é', ' \\', ' a = 1', " '''", ' if', ' long ' + 'w' * 30]
 
 
+# placeholder shapes over the whole identifier grammar of f-string substitution, and near misses
+PLACEHOLDER_IDS = ['a', 'x', '_', '_a', '_name', 'a_', 'a1', 'A', 'Z9_', '_1', '__', 'abc_DEF_09', 'v']
+PLACEHOLDER_SHAPES = ['@' + i + '@' for i in PLACEHOLDER_IDS] + [
+    'lib-@_name@.so', '@a@@b@', '@a@b@', '@_x@@_y@', 'p@a@s', '@a@ and @_b@',      # substituted
+    '@@', '@', '@1a@', '@9@', '@a b@', '@a-b@', '@é@', '@ a@', '@a @', 'a@b', '@a', 'a@', '@a.b@', '@-@', 'a@@b',  # not substituted
+    '\\x40a\\x40', '@a\\x40', '\\100_a\\100',   # escapes: substituted in '...' (decoded), literal in '''...'''
+]
+
+
 class Gen:
     """grammar-based program generator; emits tokens, `render` decorates with legal trivia"""
 
@@ -436,6 +469,17 @@ class Gen:
             s = s.replace("'''", "''x'") + 'x'
         return s
 
+    def with_placeholders(self, body: str) -> str:
+        """f-string bodies carry placeholders of every shape (and near misses) at random positions"""
+        r = self.rng
+        if r.random() < 0.6:
+            for _ in range(r.choice([1, 1, 2])):
+                i = r.randint(0, len(body))
+                while i > 0 and body[i - 1] == '\\':   # do not split an escape sequence
+                    i -= 1
+                body = body[:i] + r.choice(PLACEHOLDER_SHAPES) + body[i:]
+        return body
+
     def string(self) -> str:
         r = self.rng
         k = r.random()
@@ -444,8 +488,8 @@ class Gen:
         if k < 0.75:
             return "'''" + self.multi_body() + "'''"
         if k < 0.9:
-            return "f'" + self.plain_body() + "'"
-        return "f'''" + self.multi_body() + "'''"
+            return "f'" + self.with_placeholders(self.plain_body()) + "'"
+        return "f'''" + self.with_placeholders(self.multi_body()) + "'''"
 
     def number(self) -> str:
         return self.rng.choice(['0', '1', '2', '42', '0x1F', '0o17', '0b101', '0XaB', '123456789012345678901234567890', '10'])
@@ -1140,22 +1184,47 @@ def write_cfgs(cfgdir: str, cfgs: T.List[T.Dict[str, T.Any]], start: int = 0) ->
 
 
 def keys_of(text: str, cfg: T.Dict[str, T.Any], cfgdir: str, slot: int = 9999) -> T.Set[str]:
+    return {k for k, _ in viol_of(text, cfg, cfgdir, slot)}
+
+
+def part_of(what: str) -> str:
+    """which clause of the property an oracle message is about"""
+    if what.startswith('formatted text does not parse'):
+        return 'parse'
+    if what.startswith('program changed'):
+        return 'meaning'
+    if what.startswith('comments '):
+        return 'comments'
+    if what.startswith('format(format(x))') or 'second pass' in what or ' formatting ' in what:
+        return 'idem'
+    if what.startswith('Formatter.format raised'):
+        return 'raises'
+    return 'other'
+
+
+def viol_of(text: str, cfg: T.Dict[str, T.Any], cfgdir: str, slot: int = 9999) -> T.List[T.Tuple[str, str]]:
     write_cfgs(cfgdir, [cfg], slot)
     _FMT_CACHE.pop(f'{cfgdir}/{slot}', None)
-    r = run_pair(text, cfgdir, slot, cfg, want_ser=False)
-    return {k for k, _ in r['viol']}
+    return run_pair(text, cfgdir, slot, cfg, want_ser=False)['viol']
 
 
-def shrink(text: str, cfg: T.Dict[str, T.Any], key: str, cfgdir: str, budget: int = 400) -> T.Tuple[str, T.Dict[str, T.Any]]:
-    """delta-debug the text (character chunks) and the configuration (towards defaults) while the same
-    violation key is reported"""
+def shrink(text: str, cfg: T.Dict[str, T.Any], key: str, cfgdir: str, budget: int = 400,
+           part: T.Optional[str] = None) -> T.Tuple[str, T.Dict[str, T.Any]]:
+    """delta-debug the configuration (towards defaults) and the text (character chunks) while the same
+    violation key is reported — or, with `part`, while the same clause of the property (parse / meaning /
+    comments / idem) fails under whatever key.  Deterministic."""
+    def holds(t: str, c: T.Dict[str, T.Any]) -> bool:
+        v = viol_of(t, c, cfgdir)
+        if part is not None:
+            return any(part_of(w) == part for _k, w in v)
+        return any(k == key for k, _w in v)
     cfg = dict(cfg)
     for k in OPTION_NAMES:
         if cfg[k] != DEFAULT_CFG[k] and budget > 0:
             c2 = dict(cfg)
             c2[k] = DEFAULT_CFG[k]
             budget -= 1
-            if key in keys_of(text, c2, cfgdir):
+            if holds(text, c2):
                 cfg = c2
     n = max(1, len(text) // 2)
     while n >= 1 and budget > 0:
@@ -1164,7 +1233,7 @@ def shrink(text: str, cfg: T.Dict[str, T.Any], key: str, cfgdir: str, budget: in
         while i < len(text) and budget > 0:
             cand = text[:i] + text[i + n:]
             budget -= 1
-            if cand != text and key in keys_of(cand, cfg, cfgdir):
+            if cand != text and holds(cand, cfg):
                 text = cand
                 progressed = True
             else:
@@ -1172,6 +1241,20 @@ def shrink(text: str, cfg: T.Dict[str, T.Any], key: str, cfgdir: str, budget: in
         if not progressed or n == 1:
             n //= 2
     return text, cfg
+
+
+def minimise_and_rekey(text: str, cfg: T.Dict[str, T.Any], what: str, cfgdir: str,
+                       budget: int) -> T.Tuple[str, T.Dict[str, T.Any], T.List[T.Tuple[str, str]]]:
+    """A failure the quick classifier could not attribute is minimised (same clause of the property keeps
+    failing) and the *minimised* input is classified: the reported key is the key of the minimal input.
+    Returns (minimal text, minimal cfg, [(key, what)] of that clause on the minimal input)."""
+    part = part_of(what)
+    t2, c2 = shrink(text, cfg, '', cfgdir, budget=budget, part=part)
+    v = [(k, w) for k, w in viol_of(t2, c2, cfgdir) if part_of(w) == part]
+    if not v:   # cannot happen (shrink keeps the predicate); fall back to the original
+        t2, c2 = text, cfg
+        v = [(k, w) for k, w in viol_of(text, cfg, cfgdir) if part_of(w) == part]
+    return t2, c2, v
 
 
 # --------------------------------------------------------------------------------------------- generated tables
@@ -1203,8 +1286,26 @@ def extract_tables() -> T.Tuple[T.List[int], T.List[int]]:
     return excl, fmark
 
 
+def extract_shapes() -> T.List[T.Tuple[str, bool, bool]]:
+    """for every placeholder shape: does f'<shape>' / f'''<shape>''' stay an f-string in the live formatter"""
+    mformat, mparser, _ = impl()
+    out = []
+    for sh in PLACEHOLDER_SHAPES:
+        out.append((sh, bool(_probe_string(mformat, mparser, sh, False, True).is_fstring),
+                    bool(_probe_string(mformat, mparser, sh, True, True).is_fstring)))
+    return out
+
+
 def gen_tables(ctx: Ctx) -> None:
     excl, fmark = extract_tables()
+    shapes = extract_shapes()
+    impl()
+    if not FSUB_SOURCE.startswith('InterpreterBase'):
+        ctx.obligation_failed('gen_tables', 'placeholder regex of InterpreterBase.evaluate_fstring not found: ' + FSUB_SOURCE)
+    ctx.extra['fstring_placeholder_regex'] = FSUB.pattern
+    ctx.extra['fstring_placeholder_regex_source'] = FSUB_SOURCE
+    ctx.extra['fstring_shapes_dropping_f'] = [sh for sh, p, m in shapes if not p or not m]
+    shape_lit = ',\n   '.join(f'([{", ".join(str(ord(c)) for c in sh)}], {str(p).lower()}, {str(m).lower()})' for sh, p, m in shapes)
     body = f'''/- generated by harness/c16.py gen_tables from the live mesonbuild.mformat (do not edit) -/
 namespace MesonModel.Generated.FmtTables
 
@@ -1217,6 +1318,12 @@ def fstringMarkerCodes : List Nat := [{", ".join(map(str, fmark))}]
 
 def simplifyExcluded : List Char := simplifyExcludedCodes.map Char.ofNat
 def fstringMarkers : List Char := fstringMarkerCodes.map Char.ofNat
+
+/-- placeholder shapes (code points) with: does `f'<shape>'` stay an f-string, does `f\'\'\'<shape>\'\'\'` stay an
+f-string (observed on the live `TrimWhitespaces.visit_StringNode`).  The interpreter's placeholder regex read
+from the live `InterpreterBase.evaluate_fstring` is (advisory): {FSUB.pattern} -/
+def fstringShapes : List (List Nat × Bool × Bool) :=
+  [{shape_lit}]
 
 end MesonModel.Generated.FmtTables
 '''
@@ -1251,6 +1358,8 @@ TARGETED: T.List[T.Tuple[str, T.Dict[str, T.Any]]] = [
     ("if a\n# in block\nendif\n", {}), ("if a # c1\n  b = 1 # c2\nelse # c3\n  # c4\nendif # c5\n", {}),
     ("foreach a, b : d # c\n continue # c2\nendforeach\n", {}),
     ("x = f'@a@' + f'a@b' + f'''@a@''' + '''it's'''\n", {}),
+    ("x = [" + ", ".join("f'" + sh + "'" for sh in PLACEHOLDER_SHAPES) + "]\n", {}),
+    ("x = [" + ", ".join("f'''p" + sh + "s'''" for sh in PLACEHOLDER_SHAPES) + "]\n", {'max_line_length': 200}),
     ("a = b ? c : d\nx = (a ? b : c) ? d : e\n", {}),
     ("e = executable('a', 'b.c', dependencies : [x, y], install : true, c_args : ['--opt', 'value', '--', '-Dx'])\n",
      {'max_line_length': 40, 'group_arg_value': True, 'kwargs_force_multiline': True, 'wide_colon': True}),
@@ -1282,7 +1391,7 @@ def _job(a: T.Tuple[str, T.List[T.Dict[str, T.Any]], str, T.Any]) -> T.List[T.Di
     for origin, text, ci in items:
         r = run_pair(text, cfgdir, ci, cfgs[ci])
         r['origin'] = origin
-        if r['status'] == 'ok' and (origin != 'gen' or hash(text) % 8 == 0):
+        if r['status'] == 'ok' and (origin != 'gen' or zlib.crc32(text.encode('utf-8', 'surrogatepass')) % 8 == 0):
             r['viol'] += check_cli(text, cfgdir, ci, r['out'], cfgs[ci]['end_of_line'])
             r['cli'] = True
             if r.get('idem'):
@@ -1304,9 +1413,15 @@ def decision_cases(rng: random.Random, n: int) -> T.Tuple[T.List[T.Tuple[str, bo
             for f in (False, True):
                 for on in (True, False):
                     strs.append((raw, multi, f, on))
+    for sh in PLACEHOLDER_SHAPES:
+        for multi in (False, True):
+            for pre, post in (('', ''), ('lib', '.so'), ('@', ''), ('', '@')):
+                strs.append((pre + sh + post, multi, True, True))
     for _ in range(n):
         multi = rng.random() < 0.5
         raw = g.multi_body() if multi else g.plain_body()
+        if rng.random() < 0.3:
+            raw = g.with_placeholders(raw)
         if rng.random() < 0.3:
             raw = ''.join(rng.choice(['a', '\\', "\\'", '@', 'x1', '_', ' ', '\\n', '1', '\\x4', '0', 'é', '\\u00e9', '7']) for _ in range(rng.randint(0, 7)))
             if multi and (raw.endswith("'") or "'''" in raw):
@@ -1459,6 +1574,12 @@ def run(ctx: Ctx) -> None:
         'f-string denotation taken from InterpreterBase.evaluate_fstring: substitution sites are matches of @ident@',
         'nesting depth of generated programs <= 7 (RecursionError is a runtime limit)',
     ]
+    for f in os.listdir(ctx.workdir):   # replay files of earlier runs (possibly against another tree) are stale
+        if f.startswith('replay-') and f.endswith('.json'):
+            try:
+                os.unlink(os.path.join(ctx.workdir, f))
+            except OSError:
+                pass
     check_decisions(ctx)
     cfgdir = common.scratch_dir('mverif-c16cfg-')
     try:
@@ -1505,7 +1626,7 @@ def process(ctx: Ctx, results: T.List[T.Dict[str, T.Any]], cfgs: T.List[T.Dict[s
         if r.get('ncom'):
             ctx.tag('with-comments')
         if r.get('out') is not None and r['out'] != r['text']:
-            ctx.seen_nontrivial(hash((r['text'], r['cfgid'])))
+            ctx.seen_nontrivial((zlib.crc32(r['text'].encode('utf-8', 'surrogatepass')), len(r['text']), r['cfgid']))
         ctx.sample({'text': r['text'][:200], 'cfg': nondefault(cfg), 'out': (r.get('out') or '')[:200]}, limit=4)
         for key, what in r['viol']:
             ctx.tag('oracle:' + key)
@@ -1519,15 +1640,32 @@ def process(ctx: Ctx, results: T.List[T.Dict[str, T.Any]], cfgs: T.List[T.Dict[s
             lines.append(f'coms {r["ser_in"]}')
             meta.append(('coms', r))
     ctx.extra['programs'] = programs
-    # unknown violations: report the smallest (shrunk) input per key
+    # Failures whose quick classification is not a listed finding: minimise (the same clause of the property
+    # keeps failing) and classify the MINIMISED input; its key is the verdict.  Per original key the (at most)
+    # MAXMIN smallest instances are treated, smallest first (length, then text): independent of case order.
+    MAXMIN = 4
     for key, lst in sorted(unknown.items()):
-        lst.sort(key=lambda x: len(x[0]))
-        text, ci, what = lst[0]
-        try:
-            t2, c2 = shrink(text, cfgs[ci], key, cfgdir, budget=ctx.scale(250, 1500))
-        except Exception:
-            t2, c2 = text, cfgs[ci]
-        ctx.violation(key, what, {'text': t2, 'cfg': nondefault(c2), 'count': len(lst)})
+        lst = sorted(set(lst), key=lambda x: (len(x[0]), x[0], x[1]))
+        new_found = False
+        for text, ci, what in lst[:MAXMIN]:
+            if key.startswith('cli:'):
+                ctx.violation(key, what, {'text': text, 'cfg': nondefault(cfgs[ci]), 'count': len(lst), 'repo': common.REPO})
+                new_found = True
+                break
+            try:
+                t2, c2, v2 = minimise_and_rekey(text, cfgs[ci], what, cfgdir, budget=ctx.scale(500, 1500))
+            except Exception as e:
+                t2, c2, v2 = text, cfgs[ci], [(key, what + f' (minimisation failed: {type(e).__name__})')]
+            for k2, w2 in v2:
+                ctx.tag('minimised:' + key + '->' + k2)
+                ctx.violation(k2, w2, {'text': t2, 'cfg': nondefault(c2), 'count': len(lst), 'first_key': key,
+                                       'original_text': text[:2000], 'original_cfg': nondefault(cfgs[ci]), 'repo': common.REPO})
+                if k2 not in ctx.known:
+                    new_found = True
+            if new_found:
+                break
+        if not new_found and len(lst) > MAXMIN:
+            ctx.notes.append(f'{len(lst)} cases first keyed {key}: the {MAXMIN} smallest minimise to listed findings; the rest were not minimised')
     # Lean checker on the same pairs
     checked = 0
     if ctx.model_available and lines:
@@ -1572,6 +1710,8 @@ def search(ctx: Ctx, disagreements: T.List[dict]) -> None:
                 continue
             texts += [f"x = '''a{c}b'''\n", f"x = f'''a{c}b'''\n", f"x = f'a{c}b@v@'\n", f"x = f'@{c}v@'\n", f"x = '''@v{c}@'''\n"]
         texts += ["x = '''a\nb'''\n", "x = '''a\tb'''\n", "x = f'''@v@'''\n", "x = f'@v@'\n", "x = f'\\x40v\\x40'\n"]
+        for sh in PLACEHOLDER_SHAPES:
+            texts += [f"x = f'{sh}'\n", f"x = f'''{sh}'''\n", f"x = f'lib-{sh}.so'\n"]
         for d in disagreements:
             inp = d.get('input')
             if d.get('kind') == 'decision' and inp:
